@@ -87,6 +87,8 @@ def run(ctx):
     for arch in TARGETS:
         grammar_cells(ctx, dump, arch, "C29.R3")
     _context_interface(ctx, dump)
+    from .c05 import phi_lowering
+    phi_lowering(ctx, "C29.R8")      # the CFG preparation before selection must not die on any verifier-valid shape (cjmp c ? S : S)
 
 
 def late_binding_rule(ctx, rid, prefixes):
